@@ -94,7 +94,8 @@ pub fn run_case(c: &Value) -> Value {
     *SEEN.lock().unwrap() = None;
     let hs: Vec<(Vec<u8>, Vec<u8>)> = c["headers"].as_array().unwrap().iter().map(|h| (unhex(h[0].as_str().unwrap()), unhex(h[1].as_str().unwrap()))).collect();
     let body = c["body"].as_str().map(unhex).unwrap_or_default();
-    let wire = APP.with(|t| apps::wire(t, c["method"].as_str().unwrap(), &unhex(c["target"].as_str().unwrap()), &hs, &body));
+    let tail = c["tail"].as_str().map(unhex).unwrap_or_default();
+    let wire = APP.with(|t| apps::wire_tail(t, c["method"].as_str().unwrap(), &unhex(c["target"].as_str().unwrap()), &hs, &body, &tail));
     let status = match &wire { Ok(w) => std::str::from_utf8(&w[9..12]).unwrap().parse::<u16>().unwrap(), Err(_) => 0 };
     match SEEN.lock().unwrap().take() {
         Some((params, items)) => json!({"ran": true, "status": status, "params": params, "items": items}),
